@@ -344,6 +344,15 @@ fn gen_case(rng: &mut Rng) -> (Ver, Vec<u8>) {
                     let h = tx.signed_intent.intent.prepare(PreparationSettings::latest_ref()).unwrap().transaction_intent_hash();
                     tx.notary_signature.0 = k.sign_without_public_key(&h);
                 }
+                5 => {
+                    // tamper with an intent signature, then notarize again
+                    if let Some(s) = tx.signed_intent.intent_signatures.signatures.last_mut() {
+                        tamper_sig(&mut s.0, rng)
+                    }
+                    let k = key(spec.notary.0, spec.notary.1);
+                    let h = tx.signed_intent.prepare(PreparationSettings::latest_ref()).unwrap().signed_transaction_intent_hash();
+                    tx.notary_signature.0 = k.sign_without_public_key(&h);
+                }
                 _ => {}
             }
             (Ver::V1, tx.to_raw().unwrap().to_vec())
@@ -389,6 +398,13 @@ fn gen_case(rng: &mut Rng) -> (Ver, Vec<u8>) {
                     }
                 }
                 _ => {}
+            }
+            if rng.chance(1, 2) {
+                // notarize again after the tampering, so that validation gets past the notary signature
+                let k = key(spec.notary.0, spec.notary.1);
+                if let Ok(p) = tx.signed_transaction_intent.prepare(PreparationSettings::latest_ref()) {
+                    tx.notary_signature.0 = k.sign_without_public_key(&p.signed_transaction_intent_hash());
+                }
             }
             (Ver::V2, tx.to_raw().unwrap().to_vec())
         }
